@@ -1,7 +1,8 @@
 //! C13 — generator programs run on the real `omaha_client::async_generator::generate`
 //! under explicit consumer schedules, polled by hand with a counting root waker.
 //!
-//! input JSON: {"ops":[["y",x] | ["ya",[x..]] | ["sw"] | ["w",k] | ["d"] ...], "ret":r,
+//! input JSON: {"mode":"raw"|"into_yielded"|"into_complete",
+//!              "ops":[["y",x] | ["ya",[x..]] | ["sw"] | ["w",k] | ["d"] ...], "ret":r,
 //!              "sched":["p" | k ...]}     ("p" = Poll, a number k = Complete k)
 use crate::util::*;
 use futures::stream::FusedStream;
@@ -124,23 +125,74 @@ async fn interp(co: Yield<u64>, ops: Vec<Op>, ret: u64, sh: Rc<RefCell<Shared>>)
     ret
 }
 
+/// `into_yielded` needs a generator returning ().
+async fn interp_unit(co: Yield<u64>, ops: Vec<Op>, sh: Rc<RefCell<Shared>>) {
+    interp(co, ops, 0, sh).await;
+}
+
+#[derive(Clone, Copy, Debug, PartialEq)]
+pub enum Mode {
+    Raw,
+    Yielded,
+    Complete,
+}
+impl Mode {
+    fn name(self) -> &'static str {
+        match self {
+            Mode::Raw => "raw",
+            Mode::Yielded => "into_yielded",
+            Mode::Complete => "into_complete",
+        }
+    }
+    fn gallina(self) -> &'static str {
+        match self {
+            Mode::Raw => "MRaw",
+            Mode::Yielded => "MYielded",
+            Mode::Complete => "MComplete",
+        }
+    }
+    fn parse(v: &Value) -> Mode {
+        match v.as_str() {
+            Some("into_yielded") => Mode::Yielded,
+            Some("into_complete") => Mode::Complete,
+            _ => Mode::Raw,
+        }
+    }
+}
+
+enum Driver {
+    Raw(Pin<Box<dyn FusedStream<Item = GeneratorState<u64, u64>>>>),
+    Yielded(Pin<Box<dyn FusedStream<Item = u64>>>),
+    Complete(Pin<Box<dyn Future<Output = u64>>>),
+}
+
 /// A live run of the real generator that can be stepped.
 pub struct Live {
-    gen: Pin<Box<dyn FusedStream<Item = GeneratorState<u64, u64>>>>,
+    gen: Driver,
     sh: Rc<RefCell<Shared>>,
     root: Arc<RootWaker>,
     waker: Waker,
     last: usize,
+    /// into_complete: the future has returned Ready and must not be polled again
+    pub finished: bool,
 }
 impl Live {
-    pub fn new(ops: &[Op], ret: u64) -> Live {
+    pub fn new(mode: Mode, ops: &[Op], ret: u64) -> Live {
         let sh = Rc::new(RefCell::new(Shared::default()));
         let sh2 = sh.clone();
         let ops = ops.to_vec();
-        let gen = async_generator::generate(move |co| interp(co, ops, ret, sh2));
+        let gen = match mode {
+            Mode::Raw => Driver::Raw(Box::pin(async_generator::generate(move |co| interp(co, ops, ret, sh2)))),
+            Mode::Yielded => {
+                Driver::Yielded(Box::pin(async_generator::generate(move |co| interp_unit(co, ops, sh2)).into_yielded()))
+            }
+            Mode::Complete => {
+                Driver::Complete(Box::pin(async_generator::generate(move |co| interp(co, ops, ret, sh2)).into_complete()))
+            }
+        };
         let root = Arc::new(RootWaker(AtomicUsize::new(0)));
         let waker = Waker::from(root.clone());
-        Live { gen: Box::pin(gen), sh, root, waker, last: 0 }
+        Live { gen, sh, root, waker, last: 0, finished: false }
     }
     fn count(&self) -> usize {
         self.root.0.load(Ordering::SeqCst)
@@ -159,26 +211,47 @@ impl Live {
                 None
             }
             Step::Poll => {
+                assert!(!self.finished, "poll after the into_complete future returned");
                 let before = self.count();
                 let wb = before != self.last;
                 self.sh.borrow_mut().done_log.clear();
                 let mut cx = Context::from_waker(&self.waker);
-                let r = self.gen.as_mut().poll_next(&mut cx);
+                let (res, term) = match &mut self.gen {
+                    Driver::Raw(g) => {
+                        let r = match g.as_mut().poll_next(&mut cx) {
+                            Poll::Pending => Res::Pending,
+                            Poll::Ready(Some(GeneratorState::Yielded(x))) => Res::Yielded(x),
+                            Poll::Ready(Some(GeneratorState::Complete(r))) => Res::Complete(r),
+                            Poll::Ready(None) => Res::End,
+                        };
+                        (r, g.is_terminated())
+                    }
+                    Driver::Yielded(g) => {
+                        let r = match g.as_mut().poll_next(&mut cx) {
+                            Poll::Pending => Res::Pending,
+                            Poll::Ready(Some(x)) => Res::Yielded(x),
+                            Poll::Ready(None) => Res::End,
+                        };
+                        (r, g.is_terminated())
+                    }
+                    Driver::Complete(f) => match f.as_mut().poll(&mut cx) {
+                        Poll::Pending => (Res::Pending, false),
+                        Poll::Ready(r) => {
+                            self.finished = true;
+                            (Res::Complete(r), false)
+                        }
+                    },
+                };
                 let after = self.count();
                 self.last = after;
                 let sh = self.sh.borrow();
                 Some(Obs {
                     wb,
-                    res: match r {
-                        Poll::Pending => Res::Pending,
-                        Poll::Ready(Some(GeneratorState::Yielded(x))) => Res::Yielded(x),
-                        Poll::Ready(Some(GeneratorState::Complete(r))) => Res::Complete(r),
-                        Poll::Ready(None) => Res::End,
-                    },
+                    res,
                     wd: after != before,
                     done: sh.done_log.clone(),
                     blocked: sh.wakers.keys().next().copied(),
-                    term: self.gen.is_terminated(),
+                    term,
                 })
             }
         }
@@ -217,8 +290,8 @@ fn step_parse(v: &Value) -> Step {
         None => Step::Poll,
     }
 }
-fn input_json(ops: &[Op], ret: u64, sched: &[Step], kind: &str) -> Value {
-    json!({"ops": ops.iter().map(op_json).collect::<Vec<_>>(), "ret": ret,
+fn input_json(mode: Mode, ops: &[Op], ret: u64, sched: &[Step], kind: &str) -> Value {
+    json!({"mode": mode.name(), "ops": ops.iter().map(op_json).collect::<Vec<_>>(), "ret": ret,
            "sched": sched.iter().map(step_json).collect::<Vec<_>>(), "kind": kind})
 }
 
@@ -263,9 +336,22 @@ fn obs_json(o: &Obs) -> Value {
                                   Res::Complete(x) => json!({"complete": x}), Res::End => json!("end") }})
 }
 
-pub fn run_prog(ops: &[Op], ret: u64, sched: &[Step]) -> Vec<Obs> {
-    let mut live = Live::new(ops, ret);
-    sched.iter().filter_map(|s| live.step(*s)).collect()
+/// Runs the schedule; returns the observations and the part of the schedule that was
+/// executed (an into_complete future is not polled again after it returned Ready).
+pub fn run_prog(mode: Mode, ops: &[Op], ret: u64, sched: &[Step]) -> (Vec<Obs>, Vec<Step>) {
+    let mut live = Live::new(mode, ops, ret);
+    let mut obs = vec![];
+    let mut done = vec![];
+    for s in sched {
+        if live.finished {
+            break;
+        }
+        if let Some(o) = live.step(*s) {
+            obs.push(o);
+        }
+        done.push(*s);
+    }
+    (obs, done)
 }
 
 pub fn run_input(input: &Value) -> Case {
@@ -273,17 +359,20 @@ pub fn run_input(input: &Value) -> Case {
     let ret = input["ret"].as_u64().unwrap();
     let sched: Vec<Step> = input["sched"].as_array().unwrap().iter().map(step_parse).collect();
     let kind = input["kind"].as_str().unwrap_or("replay").to_string();
+    let mode = Mode::parse(&input["mode"]);
     let mut out = input.clone();
-    let r = std::panic::catch_unwind(std::panic::AssertUnwindSafe(|| run_prog(&ops, ret, &sched)));
+    let r = std::panic::catch_unwind(std::panic::AssertUnwindSafe(|| run_prog(mode, &ops, ret, &sched)));
     let g_prog = g_list(&ops.iter().map(g_op).collect::<Vec<_>>());
-    let g_sched = g_list(&sched.iter().map(g_step).collect::<Vec<_>>());
+    let mut g_sched = g_list(&sched.iter().map(g_step).collect::<Vec<_>>());
     let (gobs, class, nontrivial) = match r {
-        Ok(obs) => {
+        Ok((obs, executed)) => {
+            g_sched = g_list(&executed.iter().map(g_step).collect::<Vec<_>>());
             out["impl"] = Value::Array(obs.iter().map(obs_json).collect());
-            let finished = obs.iter().any(|o| matches!(o.res, Res::Complete(_)));
+            let finished = obs.iter().any(|o| matches!(o.res, Res::Complete(_) | Res::End));
             let yielded = obs.iter().filter(|o| matches!(o.res, Res::Yielded(_))).count();
             let class = format!(
-                "{}{}{}",
+                "{}-{}{}{}",
+                mode.name(),
                 kind,
                 if finished { "-finished" } else { "-unfinished" },
                 if ops.contains(&Op::DropHandle) { "-drop" } else { "" }
@@ -293,15 +382,15 @@ pub fn run_input(input: &Value) -> Case {
         Err(_) => {
             // the model never panics: an observation list no run can produce
             out["impl"] = json!("PANIC");
-            ("[Ob true RStreamEnd true [99999] None false]".to_string(), format!("{}-PANIC", kind), true)
+            ("[Ob true RStreamEnd true [99999] None false]".to_string(), format!("{}-{}-PANIC", mode.name(), kind), true)
         }
     };
     Case {
-        gallina: format!("K13 {} {} {} {}", g_prog, ret, g_sched, gobs),
+        gallina: format!("K13 {} {} {} {} {}", mode.gallina(), g_prog, ret, g_sched, gobs),
         json: out,
         class,
         nontrivial,
-        key: serde_json::to_string(&json!([input["ops"], input["ret"], input["sched"]])).unwrap(),
+        key: serde_json::to_string(&json!([input["mode"], input["ops"], input["ret"], input["sched"]])).unwrap(),
     }
 }
 
@@ -369,8 +458,8 @@ fn size_of(ops: &[Op]) -> usize {
 /// every wake; when idle, the environment completes the event the task waits for
 /// (`lazy_env`: only then; otherwise events may also complete early, unasked).
 /// The schedule is built by running the real generator, and then replayed from JSON.
-fn adaptive_sched(rng: &mut Rng, ops: &[Op], ret: u64, early: bool, extra_polls: u64) -> Vec<Step> {
-    let mut live = Live::new(ops, ret);
+fn adaptive_sched(rng: &mut Rng, mode: Mode, ops: &[Op], ret: u64, early: bool, extra_polls: u64) -> Vec<Step> {
+    let mut live = Live::new(mode, ops, ret);
     let mut sched = vec![];
     let evs = events_of(ops);
     let mut want_poll = true; // first poll, or the previous poll returned Ready(Some) or woke the root waker
@@ -386,7 +475,7 @@ fn adaptive_sched(rng: &mut Rng, ops: &[Op], ret: u64, early: bool, extra_polls:
             sched.push(Step::Poll);
             want_poll = o.wd || !matches!(o.res, Res::Pending);
             blocked = o.blocked;
-            if o.res == Res::End {
+            if o.res == Res::End || live.finished {
                 break;
             }
         } else {
@@ -433,25 +522,38 @@ pub fn generate(rng: &mut Rng, n: usize, thorough: bool) -> Vec<Value> {
         (vec![Op::Wait(1), Op::Wait(0), Op::Wait(1)], vec![Step::Poll, Step::Complete(0), Step::Poll, Step::Complete(1), Step::Poll, Step::Complete(0), Step::Poll, Step::Poll]),
     ];
     for (ops, s) in &fixed {
-        v.push(input_json(ops, 7, s, "fixed"));
+        for m in [Mode::Raw, Mode::Yielded, Mode::Complete] {
+            v.push(input_json(m, ops, 7, s, "fixed"));
+        }
     }
     for _ in 0..n {
         let (ops, ret) = rand_prog(rng);
-        let s1 = adaptive_sched(rng, &ops, ret, false, 2);
-        v.push(input_json(&ops, ret, &s1, "executor"));
+        // the raw stream: 4 schedules
+        let s1 = adaptive_sched(rng, Mode::Raw, &ops, ret, false, 2);
+        v.push(input_json(Mode::Raw, &ops, ret, &s1, "executor"));
         let extra = rng.below(3);
-        let s2 = adaptive_sched(rng, &ops, ret, true, extra);
-        v.push(input_json(&ops, ret, &s2, "executor-early"));
+        let s2 = adaptive_sched(rng, Mode::Raw, &ops, ret, true, extra);
+        v.push(input_json(Mode::Raw, &ops, ret, &s2, "executor-early"));
         let s3 = random_sched(rng, &ops, 7);
-        v.push(input_json(&ops, ret, &s3, "random"));
+        v.push(input_json(Mode::Raw, &ops, ret, &s3, "random"));
         let pw = 3 + rng.below(7);
         let s4 = random_sched(rng, &ops, pw);
-        v.push(input_json(&ops, ret, &s4, "random"));
+        v.push(input_json(Mode::Raw, &ops, ret, &s4, "random"));
+        // the two wrappers the state machine uses: one schedule each
+        for m in [Mode::Yielded, Mode::Complete] {
+            let (s5, kind) = if rng.chance(1, 2) {
+                let early = rng.chance(1, 2);
+                (adaptive_sched(rng, m, &ops, ret, early, if m == Mode::Yielded { 2 } else { 0 }), "executor")
+            } else {
+                (random_sched(rng, &ops, 7), "random")
+            };
+            v.push(input_json(m, &ops, ret, &s5, kind));
+        }
     }
     if thorough {
-        // all programs of length <= 4 over six operations x all schedules of length 8 over
+        // all programs of length <= 4 over five operations x all schedules of length 8 over
         // {Poll, Complete 0} (every shorter schedule is a prefix of one of these and the
-        // observations of a prefix are a prefix of the observations)
+        // observations of a prefix are a prefix of the observations); the wrappers for length <= 3
         let alphabet = [Op::Yield(1), Op::YieldAll(vec![2, 3]), Op::SelfWake, Op::Wait(0), Op::DropHandle];
         let mut progs: Vec<Vec<Op>> = vec![vec![]];
         let mut frontier: Vec<Vec<Op>> = vec![vec![]];
@@ -471,7 +573,11 @@ pub fn generate(rng: &mut Rng, n: usize, thorough: bool) -> Vec<Value> {
             for bits in 0u32..256 {
                 let s: Vec<Step> =
                     (0..8).map(|i| if bits >> i & 1 == 0 { Step::Poll } else { Step::Complete(0) }).collect();
-                v.push(input_json(p, 9, &s, "exhaustive"));
+                v.push(input_json(Mode::Raw, p, 9, &s, "exhaustive"));
+                if p.len() <= 3 {
+                    v.push(input_json(Mode::Yielded, p, 9, &s, "exhaustive"));
+                    v.push(input_json(Mode::Complete, p, 9, &s, "exhaustive"));
+                }
             }
         }
     }
